@@ -204,3 +204,36 @@ pub(crate) fn heap_growth_should_fail() -> bool {
     let count = GROWTH_FAIL_COUNT.with(|c| c.get());
     from != u64::MAX && k >= from && k - from < count
 }
+
+// ---------------------------------------------------------------------------
+// Interrupt injector: raises the interrupt flag when this thread's dispatch loop
+// is about to execute its n-th instruction.
+
+thread_local! {
+    static DISPATCHED: std::cell::Cell<u64> = const { std::cell::Cell::new(0) };
+    static INTERRUPT_AT: std::cell::Cell<u64> = const { std::cell::Cell::new(u64::MAX) };
+}
+
+/// Count dispatched instructions of this thread from zero and raise the interrupt flag
+/// when instruction number `n` is about to run (`u64::MAX`: never).
+pub fn set_interrupt_at_instruction(n: u64) {
+    DISPATCHED.with(|c| c.set(0));
+    INTERRUPT_AT.with(|c| c.set(n));
+}
+
+/// The number of instructions dispatched by this thread since the last `set_interrupt_at_instruction`.
+pub fn dispatched_instructions() -> u64 {
+    DISPATCHED.with(|c| c.get())
+}
+
+#[inline(always)]
+pub(crate) fn on_dispatched_instruction() {
+    let k = DISPATCHED.with(|c| {
+        let k = c.get();
+        c.set(k + 1);
+        k
+    });
+    if k == INTERRUPT_AT.with(|c| c.get()) {
+        raise_interrupt();
+    }
+}
